@@ -1277,8 +1277,8 @@ def generate():
     entries, notes, probed, ignored = [], [], [], []
     pow_mod = False
     # every family dunder that the class binds (in the source, or - for names bound dynamically - on the real class)
-    names = [n for n in reader.defined if n in DUNDERS]
-    names += [n for n in DUNDERS if n not in names and probe.real_function(n) is not None]
+    # (listed in the fixed order of DUNDERS: moving a method does not change the generated file)
+    names = [n for n in DUNDERS if n in reader.defined or probe.real_function(n) is not None]
     ignored = [n for n in reader.defined if n.startswith("__") and n.endswith("__") and n not in DUNDERS
                and n != "__getattribute__" and n in reader.methods]
     for name in names:
